@@ -148,4 +148,16 @@ Intact(s) == (s.emit.o = "Call" /\ s.emit.body = "File") =>
 RECURSIVE RunFrom(_, _)
 RunFrom(s, fuel) == IF Done(s) \/ fuel = 0 THEN <<>>
                     ELSE LET t == Step(s) IN (IF t.emit.o = "none" THEN <<>> ELSE <<t.emit>>) \o RunFrom(t, fuel - 1)
+
+(***************************************************************************)
+(* Request::recv_body(M): the documented helper with which a handler       *)
+(* enforces its limit (it "mirrors the same comparison" as the server).    *)
+(* b = [state |-> "pending" | "received", known |-> BOOLEAN, L |-> digits] *)
+(*   known length above M            -> the 413 response                   *)
+(*   body not yet received           -> the instruction to fetch it with M *)
+(*   otherwise                       -> the request itself                 *)
+(***************************************************************************)
+RecvBody(b, M) == IF b.known /\ ~DecLeq(b.L, M) THEN [k |-> "Resp", code |-> 413, fetch |-> <<>>]
+                  ELSE IF b.state = "pending" THEN [k |-> "Fetch", code |-> 0, fetch |-> M]
+                  ELSE [k |-> "Ok", code |-> 0, fetch |-> <<>>]
 ====
